@@ -33,7 +33,7 @@ def seq(p):
             elif n.endswith("tokio::task::spawn::spawn"):
                 out.append("spawn")
             elif n.endswith("Atomic::fetch_or") or n.endswith("AtomicBool::fetch_or"):
-                out.append("fetch_or")
+                out.append("fetch_or(%s,%s)" % (pathx.desc(e[2]["a"][0]).lstrip("^"), pathx.desc(e[2]["a"][1])))
             elif n.endswith("Atomic::store") or n.endswith("AtomicBool::store"):
                 out.append("store(%s)" % pathx.desc(e[2]["a"][1]))
         elif e[0] == "await":
@@ -81,8 +81,8 @@ def run(ctx):
             ("running", "DoNothing"): [],
             ("running", "Signal"): ["job.signal"],
             ("running", "Restart"): ["job.restart_with_signal", "job.run"],
-            ("running", "Queue", "already-queued"): ["fetch_or"],
-            ("running", "Queue", "first"): ["fetch_or", "spawn"],
+            ("running", "Queue", "already-queued"): ["fetch_or(queued,True)"],
+            ("running", "Queue", "first"): ["fetch_or(queued,True)", "spawn"],
             ("idle", "-"): ["job.start", "job.run"],
         }
         for k, w in want.items():
